@@ -79,7 +79,7 @@ def main():
                 # progressive test: stop deepening a family as soon as the growth is super-cubic (an exponential
                 # family would otherwise exhaust memory before depth K is reached)
                 if k >= 4 and k < K and (k // 2) in sizes:
-                    if any(s in sizes[k] and s in sizes[k // 2] and sizes[k // 2][s] > 0 and math.log(sizes[k][s] / sizes[k // 2][s]) / math.log(2) > 3.0 for s in SIZE_STAGES):
+                    if any(s in sizes[k] and s in sizes[k // 2] and sizes[k // 2][s] > 0 and math.log(sizes[k][s] / sizes[k // 2][s]) / math.log(k / (k // 2)) > 3.0 for s in SIZE_STAGES):
                         break
             table[fam] = sizes
             hi = max(sizes) if sizes else K
